@@ -12,6 +12,9 @@ from harness.project import call
 SLOTS = ["labile", "static", "isotope", "unknown", "nterm", "cterm", "adducts"]
 
 
+
+RULE_EXTRA = ('add_mods on the same modified text before the dictionary round trip; equality after an in-place edit of a modification that already took part in a comparison; peptides decorated only by a charge / bare intervals; [x,x,y] versus [x,y,y].')
+
 def _all_modlists(A):
     out = [(s, A[s]) for s in SLOTS if A[s]]
     out += [("internal", e["mods"]) for e in A["internal"]]
